@@ -180,8 +180,14 @@ def impl_layout(case):
                 sp.bounded_voronoi(cen + (bd - cen) * 1.37)
             except Exception:  # noqa
                 pass
-            w, idx = sp.spatial_weights(bd)
-            regions, idx2 = sp.bounded_voronoi(bd)
+            # the two public calls in either order (the order is a function of the layout, so that a case replays): cells first and weights second must
+            # give the weights of `bd` too, whatever the object answered for the other boundary before
+            if int(round(abs(float(co[0][0])) * 1e6)) % 2 == 0:
+                w, idx = sp.spatial_weights(bd)
+                regions, idx2 = sp.bounded_voronoi(bd)
+            else:
+                regions, idx2 = sp.bounded_voronoi(bd)
+                w, idx = sp.spatial_weights(bd)
         return dict(weights=[float(x) for x in w], indices=[int(i) for i in idx], indices2=[int(i) for i in idx2],
                     regions=[np.asarray(r, dtype=float).tolist() for r in regions])
     except Exception as e:  # noqa
@@ -262,6 +268,9 @@ def probe_nearest(ctx, rng, case, im):
     near = np.argmin((x[:, 0][:, None] - pts[:, 0][None, :]) ** 2 + (x[:, 1][:, None] - pts[:, 1][None, :]) ** 2, axis=1)
     frac = np.bincount(near, minlength=len(pts)) / len(x)
     w = np.array(im["weights"])
+    if len(w) != len(frac):
+        bad.append(("weights-are-nearest-sensor-area-fractions", f"{len(w)} weights returned for {len(frac)} retained sensors"))
+        return bad
     sig = np.sqrt(np.maximum(w * (1 - w), 1e-4) / len(x))
     ctx.supporting["montecarlo_area_probes"] = ctx.supporting.get("montecarlo_area_probes", 0) + 1
     if np.any(np.abs(frac - w) > 6 * sig + 1e-3):
